@@ -23,6 +23,16 @@ CHECKS = {
     note="Lean kernel + standard axioms; RECV_SIZE not modelled (a short recv is just another chunking); call-level independence is established by the reader theorems plus the metamorphic run on the real exchange loops; server sends non-negative sizes.",
     technique="Lean 4 proof (induction over the recv schedule, first-occurrence lemmas) + correspondence + metamorphic segmentation enumeration",
     ref="§6 C03"),
+ "C04": dict(
+    text="Lean theorems C04_store_fetch_roundtrip / C04_set_get_roundtrip (any legal key, ANY value bytes of any length, any flags; set/add/replace/cas then get/gets return the value bit for bit through encode → strict parse → AbsMap → render → incremental readers), C04_text_int_without_serde, C04_getMany_keys, C04_prefix_invisible, C04_prefix_on_the_wire. Tied to /repo by running the real Client (default, custom, pickle protocols 0..5, compressed with 4 codecs x 4 thresholds) against the reference memcached behind the fake socket with randomly chunked replies over sizes 0..64 KiB (1 MiB thorough), adversarial contents, every store x fetch op, prefixes, and key collections given as list/tuple/set/dict view/iterator/generator; the default-serde runs are also compared with the Lean client∘server model.",
+    note="Lean kernel + standard axioms; pickle/zlib/bz2/lzma are exercised, not proved (C15 states the left-inverse hypotheses); faithful memcached = AbsMap; reference server validated against the Lean server by C05's check.",
+    technique="Lean 4 proof (composition of the C02 wire round trip, AbsMap store/live lemma and the C03 reader theorems) + co-simulation with a reference server",
+    ref="§6 C04"),
+ "C05": dict(
+    text="Lean theorem C05_client_server_refines_absmap / C05_history: for every history of well-formed calls with clock advances, client ∘ wire ∘ server (Client.onServer: the transliterated encoders, strict parser, abstract map, reply renderer and the real reader loops) returns exactly what the documented contract ApiSpec.spec says on the abstract map with expiry and cas, and leaves the same map; per-family theorems for store, set_many, get/gets/gat/gats, get_many/gets_many, delete(_many), incr/decr, touch, flush_all; corollaries C05_cas_token_from_gets_accepted, C05_noreply_effect_takes_place, C05_noreply_constant, C05_set_many_failed_list_ordered. Tied to /repo by stepping the real Client against the reference memcached in lockstep with ApiSpec.spec (oracle) and Client.onServer (model) over all histories of length 2 over a 52-symbol alphabet, length 3 over a reduced one (thorough: full), random length-30 histories, default_noreply on/off, prefix on/off, clock advances around the expiry; every byte the reference server saw is replayed through the Lean server.",
+    note="Lean kernel + standard axioms; AbsMap is my reading of protocol.txt (no eviction/size limits, decr does not pad); time in whole seconds, constant during a call.",
+    technique="Lean 4 proof (refinement to an abstract map by per-operation simulation, lifted to histories by induction) + lockstep correspondence",
+    ref="§6 C05"),
  "C06": dict(
     text="Lean theorems over the plan-driven model of _connect/close (every config, every plan of socket-API failures, any number of addresses, any sequence of connects and closes): C06_no_leak, C06_failed_connect_leaves_none, C06_at_most_one_open, C06_timeouts_ordered, C06_io_only_via_tls_wrapper, C06_fallback_uses_later_address (+ all-fail and no-fallback-after-connect-failure), C06_sequence_no_leak / _at_every_moment / _closes_well_ordered, C06_recovers_after_failure; the pre-fix stale-error leak is proved as a counterexample. Tied to /repo by enumerating all connect-phase plans with <= 2 (3) faults for TCP(1..3 addresses)/UNIX/TLS x no_delay x keepalive with the event log compared to the model, and a socket-ledger monitor (created/closed/current, timeout in force at every I/O, TLS wrapper) over single/double faults at every socket-API occurrence of a multi-call scenario.",
     note="partial: OS descriptors are ids in a ledger; close() is assumed not to raise inside _connect; send/recv failures are covered by the monitor and by C01's exchange model, not by the connect model; UNIX sockets ignore tls_context/no_delay (as the code does).",
